@@ -381,8 +381,9 @@ func (vc *VC) execConvert(x *ssa.Convert, pc string, st *State) {
 		vc.overflowCheck(x, v, to, pc)
 		vc.setVal(x, v)
 	case isString(to) && isInteger(from):
-		vc.enc.Declare("runeStr", "(declare-fun runeStr (Int) Str)")
-		vc.setVal(x, sx("runeStr", v))
+		vc.enc.Declare("sf_runeStr", "(declare-fun sf_runeStr (Int) Str)")
+		vc.usedFns["runeStr"] = true
+		vc.setVal(x, sx("sf_runeStr", v))
 	case isString(to):
 		if sl, ok := from.Underlying().(*types.Slice); ok && isInteger(sl.Elem()) {
 			if b := sl.Elem().Underlying().(*types.Basic); b.Kind() == types.Uint8 {
